@@ -140,6 +140,22 @@ def factory_cases(tier):
                 chains.append((s, R.P(f"R{4 + s}", sR, 1.2 + 0.15 * s, 1), False, False))
             aligns = ["aa", "dpd1"] if tier == "quick" else ["aa", "dpd1", "dpd2", "dpd3"]
             out.append((R.three_body_spec(1, *fs, chains, parities=(-1, 1, 1, -1)), aligns))
+    # multi-topology with integer-spin final-state particles: axis-angle must work
+    for fs in (("0", "1", "0"), ("0", "0", "1"), ("1", "0", "0"), ("1", "1", "0")):
+        for subset in ((1, 2), (0, 1), (0, 2), (0, 1, 2)):
+            for JA in ("1", "0"):
+                chains, ok = [], True
+                for sp_ in subset:
+                    pair = [x for i, x in enumerate(fs) if i != sp_]
+                    if not (_consistent(JA, fs[sp_], "1") and _consistent("1", *pair)):
+                        ok = False
+                        break
+                    chains.append((sp_, R.P(f"R{4 + sp_}", 1, 1.2 + 0.15 * sp_, 1), False, False))
+                if not ok:
+                    continue
+                if tier == "quick" and (subset not in ((1, 2), (0, 1)) or (JA == "0" and fs != ("0", "1", "0"))):
+                    continue
+                out.append((R.three_body_spec(JA, *fs, chains, parities=(-1, 1, 1, -1)), ["aa"]))
     # four-body: cascade, two-resonance, and both together (spinless final state)
     def four(topos, sA="1", s1="1", s2="1", final_spin=None):
         outer = {"-1": R.P("A", sA, 4.0, -1), "0": R.P("B", 0, 0.2, -1), "1": R.P("C", 0, 0.3, -1),
@@ -194,7 +210,7 @@ def cases(tier, seed):
         n_topologies = len({t.topology for t in r.transitions})
         for al in aligns:
             if al == "aa" and tier == "quick" and len(r.transitions) > 24 and not (
-                    n_topologies == 2 and len(r.transitions) <= 48 and spec["outer"]["2"][1] == "0"):
+                    n_topologies == 2 and len(r.transitions) <= 60):
                 continue
             out.append({"reaction": {"spec": spec}, "align": al, "seed": seed})
     for name, aligns in CATALOGUE.items():
@@ -254,8 +270,10 @@ def eval_case(case):
     region = known_region(reaction0)
     if align.startswith("dpd") and len({t.topology for t in reaction0.transitions}) > 1:
         region = [*region, "dpd-alignment-with-several-topologies"]
-    if align == "aa" and len({t.topology for t in reaction0.transitions}) > 1:
-        region = [*region, "axis-angle-alignment-with-several-topologies"]
+    if align == "aa" and len({t.topology for t in reaction0.transitions}) > 1 and any(
+            float(p.spin) % 1 == 0.5 for p in reaction0.final_state.values()):
+        # (for integer-spin final states the axis-angle method IS invariant, and enforced)
+        region = [*region, "axis-angle-alignment-with-several-topologies-and-half-integer-spin"]
     builder, reaction = make_builder(reaction0, align, "none")
     model = builder.formulate()
     runner = ModelRunner(model)
@@ -291,7 +309,7 @@ def eval_case(case):
                 # inside the known region invariance under pure z-rotations is still
                 # enforced for the angle-convention finding (it holds there)
                 if tag in {"dpd-alignment-with-several-topologies",
-                           "axis-angle-alignment-with-several-topologies"} or not pure_z:
+                           "axis-angle-alignment-with-several-topologies-and-half-integer-spin"} or not pure_z:
                     tags.append(tag)
             viol.append({
                 "msg": f"rotation {label}: I = {got[k, e]:.8g} vs {base[k, e]:.8g} unrotated (rel. dev {d:.3g},"
